@@ -438,7 +438,7 @@ class MarkdownRenderer(BaseRenderer):
                     current_line += fragment.text
         else:
             # render with word wrapping
-            for word in cls.make_words(fragments):
+            for word in cls.glue_words(cls.make_words(fragments)):
                 if word == "\n":
                     # hard line break
                     yield from current_line.split("\n")
@@ -463,6 +463,25 @@ class MarkdownRenderer(BaseRenderer):
             # (a word may hold line breaks of its own - an HTML tag or comment running over
             # several lines: each of them is a line, so that it gets the prefix of its container)
             yield from current_line.split("\n")
+
+    _ends_in_backslash = re.compile(r"(?<!\\)(?:\\\\)*\\$")
+
+    @classmethod
+    def glue_words(cls, words: Iterable[str]) -> Iterable[str]:
+        """
+        Joins a word that ends in a backslash with the word after it: at the end
+        of a line, the backslash would become a hard line break.
+        """
+        pending = None
+        for word in words:
+            if pending is not None and word != "\n" and cls._ends_in_backslash.search(pending):
+                pending += " " + word
+                continue
+            if pending is not None:
+                yield pending
+            pending = word
+        if pending is not None:
+            yield pending
 
     @classmethod
     def make_words(cls, fragments: Iterable[Fragment]) -> Iterable[str]:
